@@ -28,4 +28,87 @@ func checkC19(c *Check) {
 		"arr.ai bundles are opaque")
 	e := newOrderEngine(p)
 	runOrder(c, "MAP-ORDER", e, func(f *ssa.Function) bool { return c19Scope(p, f) })
+	nondetSources(c, "NONDET-SOURCE", func(f *ssa.Function) bool { return c19Scope(p, f) })
+}
+
+// nondetSources: calls that read the clock, random numbers, process identity,
+// or encode protobuf without the Deterministic option.
+func nondetSources(c *Check, rule string, sel func(*ssa.Function) bool) {
+	p := c.P
+	n, nm := 0, 0
+	for _, f := range p.RepoFuncs() {
+		if p.isGeneratedFile(p.fnFile(f)) || !sel(f) {
+			continue
+		}
+		eachCall(f, func(cl ssa.CallInstruction) {
+			o := calleeObj(cl)
+			if o == nil || o.Pkg() == nil {
+				return
+			}
+			full := o.Pkg().Path() + "." + objLocalName(o)
+			switch {
+			case full == "time.Now", full == "time.Since", full == "os.Getpid", full == "os.Hostname",
+				o.Pkg().Path() == "math/rand", o.Pkg().Path() == "crypto/rand", o.Pkg().Path() == "math/rand/v2":
+				n++
+				c.Flagf(rule, fnName(f)+"|"+full, p.pos(cl.Pos()), "%s is read in generator code: output may differ between runs if it flows to output", full)
+			case full == "google.golang.org/protobuf/proto.Marshal" || full == "github.com/golang/protobuf/proto.Marshal":
+				nm++
+				c.Flagf(rule, fnName(f)+"|proto.Marshal", p.pos(cl.Pos()), "proto.Marshal without Deterministic: map fields are encoded in random order")
+			case full == "google.golang.org/protobuf/proto.MarshalOptions.Marshal":
+				nm++
+				// the options value must have Deterministic: true
+				det := false
+				if len(cl.Common().Args) > 0 {
+					det = derives(cl.Common().Args[0], func(v ssa.Value) bool {
+						if fa, ok := v.(*ssa.FieldAddr); ok {
+							if _, fld, _, ok := fieldOfAddr(fa); ok && fld == "Deterministic" {
+								for _, r := range *fa.Referrers() {
+									if st, ok := r.(*ssa.Store); ok {
+										if cv, ok := st.Val.(*ssa.Const); ok && cv.Value != nil && cv.Value.String() == "true" {
+											return true
+										}
+									}
+								}
+							}
+						}
+						return false
+					}, nil)
+					if !det {
+						// composite literal stored as a whole struct value
+						if al, ok := unspillDeep(cl.Common().Args[0]).(*ssa.Alloc); ok {
+							for _, r := range *al.Referrers() {
+								if fa, ok := r.(*ssa.FieldAddr); ok {
+									if _, fld, _, ok := fieldOfAddr(fa); ok && fld == "Deterministic" {
+										for _, r2 := range *fa.Referrers() {
+											if st, ok := r2.(*ssa.Store); ok {
+												if cv, ok := st.Val.(*ssa.Const); ok && cv.Value != nil && cv.Value.String() == "true" {
+													det = true
+												}
+											}
+										}
+									}
+								}
+							}
+						}
+					}
+				}
+				c.Cond(det, rule, fnName(f)+"|proto.MarshalOptions.Marshal", p.pos(cl.Pos()), "binary encoding uses MarshalOptions{Deterministic: true}", "binary protobuf encoding without Deterministic: true")
+			}
+		})
+	}
+	c.Counts[rule+"_clock_random_sites"] = n
+	c.Counts[rule+"_proto_marshal_sites"] = nm
+	c.Okf(rule, "scan", "-", "scanned generator code for clock/random/pid reads (%d) and binary protobuf encodings (%d)", n, nm)
+}
+
+func unspillDeep(v ssa.Value) ssa.Value {
+	for i := 0; i < 4; i++ {
+		switch x := v.(type) {
+		case *ssa.UnOp:
+			v = x.X
+		default:
+			return v
+		}
+	}
+	return v
 }
